@@ -1794,7 +1794,7 @@ func TestVerifC13(t *testing.T) {
 
 	// Phase B: random mutations.
 	nRandom := verifkit.Pick(4000, 100000)
-	hashBudget := verifkit.Pick(150, 1500)
+	hashBudget := verifkit.Pick(150, 600)
 	for i := 0; i < nRandom; i++ {
 		s := structured[rng.Intn(len(structured))]
 		root := c13DecodeSeed(s)
